@@ -107,6 +107,73 @@ def sub_guarded(db, fn, bb):
     return bool(ok and allow)
 
 
+def _min_args(e):
+    """operands of an `Ord::min(a, b)` / `cmp::min(a, b)` expression (shown), or None"""
+    e = cfg.peel(e)
+    if e[0] == "call" and re.search(r"(cmp::Ord::min|core::cmp::min|::min)$", e[1].get("n") or e[1].get("dn") or "") and len(e[2]) == 2:
+        return [cfg.nshow(cfg.peel(x)) for x in e[2]], e[2]
+    return None
+
+
+def sub_min_bounded(fn, bb):
+    """`a - b` where b was computed as min(a, ..): cannot underflow."""
+    t = fn["blocks"][bb]["t"]
+    c = t[1]
+    if c[0] not in ("c", "m"):
+        return False
+    for d in cfg.graph(fn).defs().get(c[1][0], []):
+        if d[0] == "stmt" and d[3][0] == "bin" and d[3][1].startswith("Sub"):
+            a = cfg.nshow(cfg.peel(cfg.expr_operand(fn, d[3][2])))
+            m = _min_args(cfg.expr_operand(fn, d[3][3]))
+            if m and a in m[0]:
+                return True
+            # a is a loop-carried local: compare by root local instead of by value
+            ra, rb = d[3][2], d[3][3]
+            if rb[0] in ("c", "m"):
+                for d2 in cfg.graph(fn).defs().get(rb[1][0], []):
+                    if d2[0] == "call" and re.search(r"(cmp::Ord::min|core::cmp::min)$", d2[2][1].get("n") or d2[2][1].get("dn") or ""):
+                        args = d2[2][2]
+                        if ra[0] in ("c", "m") and any(x[0] in ("c", "m") and x[1][0] == ra[1][0] for x in args):
+                            return True
+    return False
+
+
+def index_min_bounded(fn, bb):
+    """`arr[..n]` on a fixed-size array where n = min(.., N) with N the array length (or arr.len())."""
+    t = fn["blocks"][bb]["t"]
+    ga = t[1].get("ga") or []
+    if len(ga) < 2 or "RangeTo" not in ga[1]:
+        return False
+    mlen = re.match(r"^\[.*; (\d+)\]$", ga[0].strip())
+    if not mlen:
+        return False
+    n = int(mlen.group(1))
+    rng = cfg.peel(cfg.expr_operand(fn, t[2][1]))
+    if rng[0] == "agg" and rng[2]:
+        end = rng[2][-1]
+        # the end operand: defined by a call to min(.., const N)
+        e = cfg.peel(end)
+        if e[0] == "phi":
+            for d in cfg.graph(fn).defs().get(e[1], []):
+                if d[0] == "call" and re.search(r"(cmp::Ord::min|core::cmp::min)$", d[2][1].get("n") or d[2][1].get("dn") or ""):
+                    for x in d[2][2]:
+                        v = cfg.peel(cfg.expr_operand(fn, x))
+                        if v[0] == "const" and str(v[1].get("v")) == str(n):
+                            return True
+            return False
+        m = _min_args(e)
+        if m:
+            recv = cfg.nshow(cfg.peel(cfg.expr_operand(fn, t[2][0])))
+            for x, shown in zip(m[1], m[0]):
+                v = cfg.peel(x)
+                if v[0] == "const" and str(v[1].get("v")) == str(n):
+                    return True
+                # min(.., arr.len()) of the very array that is indexed
+                if v[0] == "call" and (v[1].get("n") or "").endswith("slice::len") and recv and recv in shown:
+                    return True
+    return False
+
+
 def strip_ty(t):
     t = re.sub(r"^&(mut )?", "", t)
     from .facts import strip_type_args
@@ -166,6 +233,10 @@ def run_panic(ctx, entries_patterns, in_scope, review, label, floor_fns, floor_s
                 cls = review.lookup(f["key"], skey)
                 if cls is None and kind == "sub" and sub_guarded(db, f, bb):
                     cls = ("SAFE", "dominated by a comparison establishing minuend >= subtrahend", None)
+                if cls is None and kind == "sub" and sub_min_bounded(f, bb):
+                    cls = ("SAFE", "the subtrahend is min(minuend, ..)", None)
+                if cls is None and kind == "index" and index_min_bounded(f, bb):
+                    cls = ("SAFE", "the range end is min(.., length of the indexed array)", None)
                 if cls is None and auto:
                     a = auto(f, (skey, kind, what, bb, line, exp))
                     if a:
